@@ -16,6 +16,9 @@ open Homonim.Src
 theorem src_C04_prog (param : Bool) : prog param = progBase ++ (if param then progParam else []) := by
   cases param <;> rfl
 
+/-- `RasterFuse.process` (C04, C09): the fan-out the machine assumes is the one the source states -/
+theorem src_C04_fan_out : fanOutModel = fanOut := rfl
+
 /-- `_out_files` (C10): the model's `processCall` - both existence checks, then both opens - is the event sequence the
     source text states, in its order.  Moving a check below an `open` changes the generated list. -/
 theorem src_C10_out_files (fs : FS) (c : Call) : processCall fs c = runEvents fs c outFilesEvents := by
